@@ -132,8 +132,48 @@ fn kahn_same_names() -> Vec<(String, Result<String, String>)> {
     out
 }
 
+/// one resolver asked more than once: what it returns describes the graph at the time of the question
+fn kahn_repeated_questions() -> Vec<(String, Result<String, String>)> {
+    let mut out = Vec::new();
+    let names = |o: &Vec<DependencyNode>| o.iter().map(|x| x.name.clone()).collect::<Vec<_>>();
+    // resolve, register one more (isolated) node, resolve again
+    {
+        let mut r = DependencyResolver::new();
+        r.add_node(node(0)); r.add_node(node(1));
+        r.add_dependency(Dependency { from: node(1), to: node(0), dependency_type: DependencyType::Field });
+        let first = r.resolve_build_order().map(|o| names(&o));
+        r.add_node(node(2));
+        let second = r.resolve_build_order().map(|o| names(&o));
+        out.push(("resolve, add_node(C), resolve".to_string(), match (first, second) {
+            (Ok(a), Ok(b)) => if a.len() == 2 && b.len() == 3 && b.contains(&NAMES[2].to_string()) { Ok(format!("{:?} then {:?}", a, b)) } else { Err(format!("first order {:?}, after add_node({}) the order is {:?}: every node exactly once", a, NAMES[2], b)) },
+            (a, b) => Err(format!("acyclic graph, but {:?} / {:?}", a.map_err(|e| e.to_string()), b.map_err(|e| e.to_string()))),
+        }));
+    }
+    // resolve, add an edge that closes a cycle, resolve again; and the other way round is not possible (edges are not removed)
+    {
+        let mut r = DependencyResolver::new();
+        r.add_node(node(0)); r.add_node(node(1));
+        r.add_dependency(Dependency { from: node(1), to: node(0), dependency_type: DependencyType::Field });
+        let first = r.resolve_build_order().is_ok();
+        r.add_dependency(Dependency { from: node(0), to: node(1), dependency_type: DependencyType::Generic });
+        let second = r.resolve_build_order();
+        out.push(("resolve, add the edge that closes a cycle, resolve".to_string(), if first && second.is_err() { Ok("order, then circular".into()) } else { Err(format!("first resolution ok: {}, after the closing edge: {:?}", first, second.map(|o| names(&o)).map_err(|e| e.to_string()))) }));
+    }
+    // the same question twice gives the same answer
+    {
+        let mut r = DependencyResolver::new();
+        for i in 0..4 { r.add_node(node(i)); }
+        r.add_dependency(Dependency { from: node(3), to: node(1), dependency_type: DependencyType::Field });
+        r.add_dependency(Dependency { from: node(1), to: node(0), dependency_type: DependencyType::Import });
+        let a = r.resolve_build_order().map(|o| names(&o)); let b = r.resolve_build_order().map(|o| names(&o));
+        out.push(("resolve twice".to_string(), match (a, b) { (Ok(a), Ok(b)) if a.len() == 4 && b.len() == 4 => Ok(format!("{:?}", a)), (a, b) => Err(format!("{:?} / {:?}", a.map_err(|e| e.to_string()), b.map_err(|e| e.to_string()))) }));
+    }
+    out
+}
+
 fn main() {
     let mut rep = Report::new();
+    for (label, verdict) in kahn_repeated_questions() { rep.case("resolve_build_order", &format!("one resolver, several questions: {}", label), &|| verdict.clone()); }
     for (label, verdict) in kahn_same_names() { rep.case("resolve_build_order", &format!("nodes sharing a name: {}", label), &|| verdict.clone()); }
     for n in 1..=4usize {
         for edges in 0..(1u32 << (n * n)) {
